@@ -1103,12 +1103,9 @@ func (e *Engine) checkSignatures() {
 		} else if fn.Signature.Results().Len() != 0 && (len(c.Ensures) > 0 || len(c.Requires) > 0) {
 			// (headers of safety-only contracts may omit the results)
 		}
-		for i, p := range params {
-			if names[i] != "_" && p.Name() != "_" && p.Name() != "" && names[i] != p.Name() {
-				c.Stale = fmt.Sprintf("parameter %d is called %s in the contract header and %s in the function", i+1, names[i], p.Name())
-				break
-			}
-		}
+		// (parameter NAMES are not compared: clauses use the header's names, which are
+		// bound by position, so renaming a parameter in the code is harmless)
+		_ = params
 	}
 }
 
